@@ -188,6 +188,23 @@ def c12(scn, obs):
             if er is not None and (ex is None or ex['i'] > er['i']):
                 bad.append(('end-run-before-event-hook-returned', f"on_end_run (run {er.get('run_no')}) was called while the {o['hook']} hook entered before it had not returned"))
                 break
+    # a (slow) implementation of on_end_run / on_finished is still INSIDE the protocol position of its run when it resumes:
+    # end-run while the state is 'running' with the run's arguments, finished while the state is 'finished' with the
+    # arguments withdrawn -- the next cycle's initialise-run does not begin before it has returned
+    for x in obs:
+        if x.get('k') == 'gate_exit' and x.get('released') and x.get('hook') in ('on_end_run', 'on_finished'):
+            want_state = 'running' if x['hook'] == 'on_end_run' else 'finished'
+            if x.get('state') != want_state:
+                bad.append((f'{x["hook"]}-resumes-in-state:{x.get("state")}',
+                            f'a held {x["hook"]} implementation (run {x.get("entered_run_no")}) resumed while the state was {x.get("state")}'))
+                break
+            if x['hook'] == 'on_finished' and x.get('run_arg'):
+                bad.append(('run-arg-not-withdrawn:next-run-began-during-on_finished',
+                            f'when a held on_finished implementation resumed the context carried the arguments of run {x.get("run_no")}'))
+                break
+            if x['hook'] == 'on_end_run' and x.get('run_no') != x.get('entered_run_no'):
+                bad.append(('end-run-resumes-with-other-run-arg', f'a held on_end_run of run {x.get("entered_run_no")} resumed with run arguments {x.get("run_no")}'))
+                break
     # a plugin registered / unregistered between hook calls receives exactly the hook calls made
     # while it was registered (compared with what the always-registered plugin saw)
     tags = {o['plugin'] for o in obs if o.get('k') in ('registered',)}
